@@ -471,13 +471,20 @@ def run_case(case):
             info = {}
 
             def corrupt(conv, _w=w, _info=info):
-                shanks = sorted(conv.shank_info.keys())
-                sh = shanks[int(rng.integers(0, len(shanks)))]
+                shanks = list(conv.shank_info.keys())
+                # which copy is hit: an AP column of any shank / the sync copy of the first shank / the sync copy of a later shank
+                mode = ("sync-later-shank", "ap", "sync-first-shank")[(_w + case["seed"]) % 3]
+                if mode == "sync-later-shank" and len(shanks) > 1:
+                    sh = shanks[int(rng.integers(1, len(shanks)))]
+                elif mode == "sync-first-shank":
+                    sh = shanks[0]
+                else:
+                    sh = shanks[int(rng.integers(0, len(shanks)))]
                 f = Path(conv.shank_info[sh]["ap_file"])
                 ncol = len(conv.shank_info[sh]["chns"])
                 mm = np.memmap(f, dtype=np.int16, mode="r+").reshape(-1, ncol)
                 r0 = int(rng.integers(_w * WINDOW, min((_w + 1) * WINDOW, mm.shape[0])))
-                c0 = int(rng.integers(0, ncol))
+                c0 = ncol - 1 if mode.startswith("sync") else int(rng.integers(0, ncol - 1))
                 mm[r0, c0] ^= np.int16(1 << int(rng.integers(0, 15)))
                 mm.flush()
                 del mm
